@@ -37,7 +37,8 @@ func vHarnessDecryptKey() {
 	}
 	// stated bound: iteration count and derived-key length small enough to run natively
 	vAssume(key.Crypto.KDFParams.C >= -4 && key.Crypto.KDFParams.C <= 4096)
-	vAssume(key.Crypto.KDFParams.DKLen >= -64 && key.Crypto.KDFParams.DKLen <= 1<<20)
+	// (lengths between 2^20 and 2^62 would be allocated natively: excluded; extreme values are in)
+	vAssume(vAny(vAll(key.Crypto.KDFParams.DKLen >= -64, key.Crypto.KDFParams.DKLen <= 1<<20), key.Crypto.KDFParams.DKLen >= 1<<62))
 	key.Crypto.MAC = vMACFor(key, passwd)
 	out, err := decryptKey(key, passwd) // a panic escapes = violation
 	if err == nil {
